@@ -182,7 +182,14 @@ def _make_vo(target, timeout, jobs=True):
     return rc, o
 
 
-def _assumption_report(txt, out):
+def _is_statement_file(f):
+    """Props/ and Inst/ hold the property statements: there every statement must carry its Print Assumptions.
+    A proof file that a property module lists as well (e.g. Misc/MigrateProofs.v) is only required to compile and
+    to report no disallowed axiom where it prints assumptions; its theorems are re-stated in Props/."""
+    return "/Props/" in "/" + f or "/Inst/" in "/" + f
+
+
+def _assumption_report(txt, out, strict=True):
     """(statements, printed, closed, axiom names, problem) for one property file and the coqc output of it"""
     names = re.findall(r"^\s*(?:Theorem|Lemma|Example|Corollary)\s+([A-Za-z0-9_']+)", txt, re.M)
     printed = re.findall(r"^\s*Print Assumptions\s+([A-Za-z0-9_']+)\s*\.", txt, re.M)
@@ -199,7 +206,7 @@ def _assumption_report(txt, out):
     bad = [a for a in axn if not allowed_axiom(a)]
     if bad:
         problem = "disallowed axioms: %s" % bad
-    elif missing:
+    elif missing and strict:
         problem = "no Print Assumptions under: %s" % ", ".join(missing[:8])
     elif "Section Variables:" in out:
         problem = "Print Assumptions inside an open section (reports section variables, not the global context)"
@@ -247,7 +254,7 @@ def coq_props(files, timeout=1500, slow=()):
             if rc != 0:
                 res["failed"].append({"file": f, "log": o[-3000:]})
                 continue
-            _, printed, closed, axn, problem = _assumption_report(txt, open(side).read())
+            _, printed, closed, axn, problem = _assumption_report(txt, open(side).read(), _is_statement_file(f))
             res["axioms"] += sorted(set(axn))
             if problem:
                 res["failed"].append({"file": f, "log": problem})
@@ -266,7 +273,7 @@ def coq_props(files, timeout=1500, slow=()):
                     os.remove(vo)
                 rc, o = _make_vo(f[:-2] + ".vo", timeout, jobs=False)
             res["log"] += o
-            names, printed, closed, axn, problem = _assumption_report(txt, o if rc == 0 else "")
+            names, printed, closed, axn, problem = _assumption_report(txt, o if rc == 0 else "", _is_statement_file(f))
             res["obligations"] += len(names)
             res["theorems"] += names
             if rc != 0:
